@@ -42,6 +42,7 @@ func checkC15(p *Program, r *Report) {
 	fullReads(p, r, "full-reads", "client", "segment", "frame", "primitive")
 	// v5 with LZ4 negotiated: every compressible payload must be decompressible (shared with C08)
 	c08Rules(p, r)
+	c15AccumulatorRefusal(p, r)
 
 	// ---- flag-clear -------------------------------------------------------------------------------------
 	r.Floor("flag-clear", 2)
@@ -656,5 +657,84 @@ func segmentDrainFor(p *Program, r *Report, rule, typeName string) {
 	}
 	if n == 0 {
 		r.Fail(rule, typeName+" drain", named.Obj().Pos(), "no method of %s reads envelopes from a self-contained segment's payload (bytes.NewReader over Payload.UncompressedData with a Len() test)", typeName)
+	}
+}
+
+// c15AccumulatorRefusal: the reassembly of a frame from several segments gives up (returns abort =
+// true itself, rather than passing on what the frame reader says) only because a callee reported an
+// error. A condition on the declared body length or on the amount accumulated that aborts is a
+// refusal of a legitimate large frame - the very frames that need several segments.
+func c15AccumulatorRefusal(p *Program, r *Report) {
+	n := 0
+	for _, fn := range clientFuncs(p) {
+		res := fn.Signature.Results()
+		if res.Len() != 1 || !types.Identical(res.At(0).Type(), types.Typ[types.Bool]) {
+			continue
+		}
+		decodes := false
+		for _, b := range fn.Blocks {
+			for _, ins := range b.Instrs {
+				if c, ok := ins.(ssa.CallInstruction); ok && c.Common().IsInvoke() && c.Common().Method.Name() == "DecodeHeader" {
+					decodes = true
+				}
+			}
+		}
+		if !decodes {
+			continue
+		}
+		// blocks from which the constant true is returned
+		var sites []*ssa.BasicBlock
+		for _, b := range fn.Blocks {
+			ret, ok := b.Instrs[len(b.Instrs)-1].(*ssa.Return)
+			if !ok || len(ret.Results) != 1 {
+				continue
+			}
+			switch v := ret.Results[0].(type) {
+			case *ssa.Const:
+				if v.Value != nil && v.Value.ExactString() == "true" {
+					sites = append(sites, b)
+				}
+			case *ssa.Phi:
+				for i, e := range v.Edges {
+					if k, ok := e.(*ssa.Const); ok && k.Value != nil && k.Value.ExactString() == "true" {
+						sites = append(sites, v.Block().Preds[i])
+					}
+				}
+			}
+		}
+		for i, b := range sites {
+			n++
+			key := fmt.Sprintf("%s abort#%d", fnKey(fn), i+1)
+			justified, cond := false, "no condition"
+			for d := b; d.Idom() != nil; d = d.Idom() {
+				id := d.Idom()
+				ifi, isIf := id.Instrs[len(id.Instrs)-1].(*ssa.If)
+				if !isIf {
+					continue
+				}
+				onTrue := id.Succs[0] == d || (id.Succs[0].Dominates(d) && len(id.Succs[0].Preds) == 1)
+				onFalse := id.Succs[1] == d || (id.Succs[1].Dominates(d) && len(id.Succs[1].Preds) == 1)
+				if !onTrue && !onFalse {
+					continue // b is reached on both branches: not the deciding test
+				}
+				cond = describeVal(ifi.Cond)
+				if bo, isBo := ifi.Cond.(*ssa.BinOp); isBo && isErrorType(bo.X.Type()) {
+					if k, isK := bo.Y.(*ssa.Const); isK && k.IsNil() {
+						if (bo.Op == token.NEQ && onTrue) || (bo.Op == token.EQL && onFalse) {
+							justified = true
+						}
+					}
+				}
+				break
+			}
+			if justified {
+				r.OKf("accumulator-refusal", key, b.Instrs[len(b.Instrs)-1].Pos(), "gives up only on a callee's error")
+			} else {
+				r.Fail("accumulator-refusal", key, b.Instrs[len(b.Instrs)-1].Pos(), "%s gives up on a multi-segment frame on a condition of its own (%s) and not because a callee reported an error: a legitimate large frame - the kind that needs several segments - is refused and the connection closed", fn.Name(), cond)
+			}
+		}
+	}
+	if n == 0 {
+		r.OKf("accumulator-refusal", "none", token.NoPos, "no accumulator returns abort on its own")
 	}
 }
